@@ -69,6 +69,10 @@ func tryRun(w *W, idx int, prop int) {
 	}
 	r := w.Rand(idx)
 	k := idx - ne
+	if k%13 == 12 {
+		tryWide(w, r, prop)
+		return
+	}
 	var names []string
 	if prop == 5 {
 		names = []string{"skeleton", "two-leaf", "mixed", "skeleton", "two-leaf", "deciding-late"}
@@ -578,4 +582,79 @@ func c05Floors(m *Merged, tier string) []string {
 		unmet = append(unmet, "no undecided (DNE) case observed")
 	}
 	return unmet
+}
+
+// tryWide: and/or with 40-127 distinct variable operands (operand stack slots beyond 64), optionally sitting on an
+// already deep stack; only a few operands are unavailable, mostly late ones; a deciding operand anywhere or nowhere.
+func tryWide(w *W, r *rand.Rand, prop int) {
+	n := []int{40, 60, 63, 64, 65, 66, 70, 100, 126, 127}[r.Intn(10)]
+	isOr := r.Intn(2) == 0
+	name := []string{"and", "&&", "&"}[r.Intn(3)]
+	if isOr {
+		name = []string{"or", "||", "|"}[r.Intn(3)]
+	}
+	ch := make([]*Node, n)
+	vals := map[string]interface{}{}
+	var order []string
+	for i := range ch {
+		v := fmt.Sprintf("v%d", i)
+		order = append(order, v)
+		ch[i] = Var(v, TBool)
+		vals[v] = !isOr // non-deciding
+	}
+	tree := Op(name, TBool, ch...)
+	// optionally on top of a deep stack of pending operands
+	pending := []int{0, 0, 10, 58, 62}[r.Intn(5)]
+	if pending > 0 && n+pending < 200 {
+		pch := make([]*Node, 0, pending+1)
+		for i := 0; i < pending && i < 126; i++ {
+			pch = append(pch, Lit(true))
+		}
+		pch = append(pch, tree)
+		tree = Op("eq", TBool, pch...)
+	}
+	w.Inc("programs")
+	w.Inc("programs_wide-andor")
+	tvs := tryVariants(w, r, tree, false)
+	if len(tvs) == 0 {
+		return
+	}
+	w.Sample("wide-andor", firstN(tree.Prefix(), 200))
+	_, tys := tree.Vars()
+	for trial := 0; trial < 6; trial++ {
+		b := Binding{Vals: map[string]interface{}{}, Avail: map[string]bool{}}
+		for k2, v := range vals {
+			b.Vals[k2] = v
+			b.Avail[k2] = true
+		}
+		// 1-3 unavailable operands, biased to late positions
+		nun := 1 + r.Intn(3)
+		for i := 0; i < nun; i++ {
+			p := n - 1 - r.Intn(minInt(n, 70))
+			if r.Intn(4) == 0 {
+				p = r.Intn(n)
+			}
+			b.Avail[order[p]] = false
+		}
+		// a deciding operand: none, early, late
+		switch r.Intn(3) {
+		case 1:
+			b.Vals[order[r.Intn(minInt(n, 10))]] = isOr
+		case 2:
+			b.Vals[order[n-1-r.Intn(minInt(n, 10))]] = isOr
+		}
+		un := unavailableOf(b, order)
+		kv, kerr := refEnv(b).Kleene(tree)
+		for i, tv := range tvs {
+			o := tryCall(w, tv, b, CallTryEval)
+			if o.Panic != nil {
+				continue
+			}
+			if prop == 5 {
+				judgeKleene(w, tv, tree, b, un, kv, kerr, o, "wide-andor")
+			} else if i%4 == trial%4 {
+				judgeSoundness(w, r, tv, tree, tys, b, un, o, false, 16, "wide-andor")
+			}
+		}
+	}
 }
